@@ -110,19 +110,23 @@ def register(S):
         fargs = ctx.args[fargs_idx]
         todo = invoke_fmt_args(ctx, fargs, None)
         vals = []
+        locs = []
         if isinstance(fargs, Opaque) and fargs.kind == "fmtargs":
             for a in fargs.get("args"):
                 v = a.get("val")
                 hops = 0
+                last = None
                 while isinstance(v, RefVal) and hops < 4:
+                    last = v.loc
                     try:
                         v = ip.read_loc(st, v.loc)
                     except Exception:
                         break
                     hops += 1
                 vals.append((a.get("trait"), a.get("ty"), v))
+                locs.append(last)       # where the printed value lives (identity of the field, when it is borrowed in place)
         ip.event(st, "write_fmt", fn=ctx.fr.fn["path"], span=ctx.call.get("span"), aspan=fargs.get("span") if isinstance(fargs, Opaque) and fargs.kind == "fmtargs" else None,
-                 args=tuple(vals), depth=len(st.frames))
+                 args=tuple(vals), locs=tuple(locs), depth=len(st.frames))
         dest, target = ctx.dest, ctx.target
         rty = ctx.ret_ty()
 
